@@ -1144,8 +1144,33 @@ func (r *Runner) redir(ctx context.Context, rd *syntax.Redirect) (io.Closer, err
 			return nil, fmt.Errorf("unsupported redirect fd: %v", rd.N.Value)
 		}
 	}
-	arg := r.literal(rd.Word)
-	switch rd.Op {
+	op := rd.Op
+	var arg string
+	switch op {
+	case syntax.WordHdoc, syntax.DplIn:
+		arg = r.literal(rd.Word)
+	case syntax.DplOut:
+		arg = r.literal(rd.Word)
+		// ">&word" with a word which is not a file descriptor or "-",
+		// and without a file descriptor on the left other than 1, is "&>word".
+		if _, err := strconv.Atoi(arg); err != nil && arg != "-" && (rd.N == nil || rd.N.Value == "1") {
+			op = syntax.RdrAll
+		}
+	}
+	switch op {
+	case syntax.WordHdoc, syntax.DplIn, syntax.DplOut:
+	default:
+		// Like bash, the name of a file to open goes through all expansions,
+		// and must result in exactly one word.
+		fields := r.fields(rd.Word)
+		if len(fields) != 1 {
+			var sb strings.Builder
+			syntax.NewPrinter().Print(&sb, rd.Word)
+			return nil, fmt.Errorf("%s: ambiguous redirect", sb.String())
+		}
+		arg = fields[0]
+	}
+	switch op {
 	case syntax.WordHdoc:
 		pr, pw, err := newPipe()
 		if err != nil {
@@ -1177,6 +1202,8 @@ func (r *Runner) redir(ctx context.Context, rd *syntax.Redirect) (io.Closer, err
 		// done further below
 	case syntax.DplIn:
 		switch arg {
+		case "0":
+			// duplicating the standard input onto itself
 		case "-":
 			r.stdin = nil // closing the input file
 		default:
@@ -1187,7 +1214,7 @@ func (r *Runner) redir(ctx context.Context, rd *syntax.Redirect) (io.Closer, err
 		return nil, fmt.Errorf("unhandled redirect op: %v", rd.Op)
 	}
 	mode := os.O_RDONLY
-	switch rd.Op {
+	switch op {
 	case syntax.AppOut, syntax.AppAll:
 		mode = os.O_WRONLY | os.O_CREATE | os.O_APPEND
 	case syntax.RdrOut, syntax.RdrAll:
@@ -1197,7 +1224,7 @@ func (r *Runner) redir(ctx context.Context, rd *syntax.Redirect) (io.Closer, err
 	if err != nil {
 		return nil, err
 	}
-	switch rd.Op {
+	switch op {
 	case syntax.RdrIn:
 		stdin, err := newStdinFile(f)
 		if err != nil {
